@@ -19,11 +19,16 @@ document loop of `indexData.Search`. What is proved here, layer by layer (DESIGN
 * `C01_search_exact_filters` — the composition (prune, loop, nextDoc, staged evaluation) for every match tree without
   trigram-backed leaves: document predicates (branch, repository, language, metadata, set filters), atoms decided by the
   regexp engine (verdict table as a parameter), const, and / or / not / type / boost / noVisit.
+* `dist_findNext_complete`, `dist_next_complete` — L3: the distance iterator (`findNext`, `next(limit)`) never drops a
+  pair of postings `q ∈ P1`, `q + d ∈ P2` (beyond the limit), for every fuel: no occurrence of the two selected trigrams
+  at the right distance is lost. (Completeness only; that the surviving head is aligned, and the candidate windowing of
+  `ngramDocIterator`, are validated, not proved.)
 Not proved (validated by the correspondence and the end-to-end oracle only): substring leaves (posting lists → candidates
 → verification, L1–L6), the same-line shortcut's equivalence with "some line holds all literals", regexp literal
 extraction (L9), the word fast path (L10), query → match-tree translation (L11), the b-tree (L12), symbol atoms.
 -/
 import ZoektModel.C01.Lemmas
+import ZoektModel.C01.IterLemmas
 namespace ZoektModel.C01
 
 /-- **one `evalMatchTree` call** on a consistent tree: the tree stays consistent, its plain value is unchanged, a decided
@@ -96,6 +101,28 @@ theorem C01_search_exact_filters (ctx : Ctx) (t0 : MT) (hn : t0.NoSub) (hf : Cur
       funext d; rw [show sem0 d t = sem0 d t0 from hp d]
     rw [e] at this
     exact this
+
+/-- **the distance iterator's `findNext` never drops an aligned pair of postings** (sorted posting lists of real offsets) -/
+theorem dist_findNext_complete (fuel : Nat) (it : Dist) (hw : it.WF) (q : Nat) (hq : it.Aligned q) :
+    (Dist.findNext fuel it).Aligned q :=
+  (Dist.findNext_complete fuel it hw q hq).2.1
+
+/-- **`next(limit)` of the distance iterator keeps every aligned pair beyond the limit** -/
+theorem dist_next_complete (x : Dist) (hw : x.WF) (limit : Nat) (hl : limit ≠ maxU32) (q : Nat)
+    (hq : x.Aligned q) (hgt : limit < q) :
+    match Hit.next (.dist x) limit with
+    | .dist y => y.Aligned q
+    | .basic _ => False := by
+  have r := Dist.next_complete x hw limit hl q hq hgt
+  cases h : Hit.next (.dist x) limit with
+  | dist y => rw [h] at r; exact r.2
+  | basic b => rw [h] at r; exact r
+
+/-! non-vacuity of the iterator theorems: trigram "abc" at 3, 10, 20 (two case variants), "def" at 6, 13, 30 -/
+def exDist : Dist := ⟨[[3, 20], [10]], [[6, 13, 30]], 3, false⟩
+example : exDist.Aligned 10 := ⟨⟨[10], by simp [exDist], by simp⟩, ⟨[6, 13, 30], by simp [exDist], by simp [exDist]⟩⟩
+example : (Dist.findNext exDist.fuel exDist).i1.first = 3 ∧
+    (match Hit.next (.dist exDist) 3 with | .dist y => y.i1.first | .basic _ => 0) = 10 := by decide
 
 /-! non-vacuity: a shard of 5 documents (document 3 dead), tree `and[doc-predicate, not(regexp verdicts), or[branch, none]]` -/
 def exCtx : Ctx := ⟨[[97], [98], [99], [100], [101]], [[], [], [], [], []], [true, true, true, false, true]⟩
